@@ -293,6 +293,7 @@ func init() {
 		setenvTier(c.Tier)
 		c.RunSharded("c17")
 		c17Cross(c)
+		c17Withdraw(c)
 		ms := c17Methods()
 		nInternal := 0
 		for _, m := range ms {
